@@ -9,7 +9,7 @@ import (
 )
 
 func init() {
-	for _, f := range []func() scen.Spec{scen.Core, scen.Basket, scen.Market, scen.BridgeSpec, scen.Large, scen.Expiry, scen.GovPool, scen.BasketLarge, scen.BasketMarket, scen.SparseGenesis, scen.OddGenesis, scen.Mixed} {
+	for _, f := range []func() scen.Spec{scen.Core, scen.Basket, scen.Market, scen.BridgeSpec, scen.Large, scen.Expiry, scen.GovPool, scen.BasketLarge, scen.BasketMarket, scen.SparseGenesis, scen.OddGenesis, scen.Mixed, scen.ExpiryMany} {
 		regSpec(f)
 	}
 	shared := func() []scen.Spec {
@@ -44,12 +44,12 @@ func init() {
 			budget(tier, 150*time.Second, 12*time.Minute))
 	}
 	Registry["C06"] = func(tier string) int {
-		return engineA("C06", tier, []scen.Spec{scen.SparseGenesis(), scen.Market(), scen.Expiry(), scen.Mixed()},
+		return engineA("C06", tier, []scen.Spec{scen.SparseGenesis(), scen.ExpiryMany(), scen.Market(), scen.Expiry(), scen.Mixed()},
 			func() []explore.Monitor { return []explore.Monitor{&mon.C06{}} },
 			budget(tier, 150*time.Second, 12*time.Minute))
 	}
 	Registry["C12"] = func(tier string) int {
-		return engineA("C12", tier, []scen.Spec{scen.OddGenesis(), scen.Expiry(), scen.Market(), scen.Mixed()},
+		return engineA("C12", tier, []scen.Spec{scen.OddGenesis(), scen.ExpiryMany(), scen.Expiry(), scen.Market(), scen.Mixed()},
 			func() []explore.Monitor { return []explore.Monitor{&mon.C12{}} },
 			budget(tier, 150*time.Second, 12*time.Minute))
 	}
